@@ -208,6 +208,37 @@ def case_alias(case):
     return out
 
 
+def case_clone(case):
+    """case: {"op": "clone", "i": index into all_objects} or {"op": "clone", "inst": instance byte}: a copy of an address
+    or instance object (copy / deepcopy / pickle round trip) is an equal object of the same kind that writes the same
+    bits; renumbering the copy leaves the original alone."""
+    import copy
+    import pickle
+    address, frame, exc = _mods()
+    out = []
+    if "inst" in case:
+        kind, num, field, o = instance_objects(address)[case["inst"]]
+        bits, shift = 24, 8
+    else:
+        space, kind, num, field, o = all_objects(address)[case["i"]]
+        bits, shift = (16, 9) if space == "gear" else (24, 17)
+    where = "%s(%r)" % (kind, num)
+    for how, fn in (("copy.copy", copy.copy), ("copy.deepcopy", copy.deepcopy), ("pickle round trip", lambda x: pickle.loads(pickle.dumps(x)))):
+        try:
+            c = fn(o)
+            f1, f2 = frame.ForwardFrame(bits, 0), frame.ForwardFrame(bits, 0)
+            o.add_to_frame(f1)
+            c.add_to_frame(f2)
+            if type(c) is not type(o) or not (c == o) or (c != o) or f1.as_integer != f2.as_integer:
+                out.append(("C04:clone-differs", "%s: %s gives %r (writes %#x, the original writes %#x, equal: %r)"
+                            % (where, how, c, f2.as_integer, f1.as_integer, c == o)))
+                break
+        except Exception as e:  # noqa
+            out.append(("C04:clone-raised:%s" % type(e).__name__, "%s: %s raised %r" % (where, how, e)))
+            break
+    return out
+
+
 def nokind_classes(address):
     """Public address classes that can be constructed but are none of the concrete kinds the standard defines."""
     names = []
@@ -644,6 +675,8 @@ def run_case(case):
         return case_nokind(case)
     if op == "alias":
         return case_alias(case)
+    if op == "clone":
+        return case_clone(case)
     raise ValueError(op)
 
 
@@ -761,6 +794,18 @@ def _shard(arg):
         res.count()
         for sig, msg in case_foreign({"op": "foreign"}):
             res.violation(sig, {"op": "foreign"}, msg)
+        for i in range(n):
+            case = {"op": "clone", "i": i}
+            res.count()
+            res.nontrivial()
+            for sig, msg in case_clone(case):
+                res.violation(sig, case, msg)
+        for b in range(256):
+            case = {"op": "clone", "inst": b}
+            res.count()
+            res.nontrivial()
+            for sig, msg in case_clone(case):
+                res.violation(sig, case, msg)
         res.sample({"op": "eq", "i": 3, "j": 85})
     return res
 
